@@ -375,3 +375,16 @@ theorem overlayWatched_mem : ∀ (os : List OverlaySpec) (o : OverlaySpec) (n : 
           · exact ih
 
 end Koreo.WorkflowPrep
+
+namespace Koreo.C14Aux
+open Koreo.CelAst Koreo.WorkflowPrep
+
+/-- a prepared step depends on already seen labels only (used by Props/C14 and by PrepToWorkflow) -/
+theorem deps_known {env : Env} {s : StepSpec} {known : List String} {out : StepOut} {deps : List String}
+    (h : loadStep env s known = .ok out) (hr : out.result = .step deps) : ∀ n ∈ deps, n ∈ known := by
+  obtain ⟨_, _, _, acc, _, _, rfl, hall, _⟩ := loadStep_step h hr
+  intro n hn
+  have := List.all_eq_true.1 hall n hn
+  simpa using this
+
+end Koreo.C14Aux
